@@ -124,6 +124,20 @@ CHECKS = {
               "Multi-key outputs must be consecutive slices of the single stream; the refusals named in the statement must raise and never return bytes."),
         note="Trusted: ref/kdf.py, ref/hashes.py, ref/modes.py self-tests plus agreement with the stdlib oracles. Sizes up to a few KiB, scrypt N<=16384, bcrypt cost<=8.",
         ref="DESIGN.md §4 C12"),
+    "C13": dict(
+        technique="runtime monitor: round-trip + reference-model oracle for encoders; for decoders a totality/strictness oracle (exception class, independent strict DER classifier) and a logical step counter (sys.monitoring) as time bound",
+        text=("(A) encoders: DerInteger over boundary values up to 4096 bits, DerObjectId with arcs to 2^70, nested DerSequence, OCTET/BIT STRING, NULL, BOOLEAN, SET OF, explicit/"
+              "implicit tags 0..30 must round-trip and equal ref/der.py's writer; all 196605 (block size 1..255 x data length 0..2b x 3 styles) paddings vs ref/padding.py; RFC 1751; "
+              "long_to_bytes/bytes_to_long; PEM clear/encrypted and PKCS8 wrap/unwrap cross-decoded by ref/keyfiles.py.  (B) 34 decoder variants (every Der*.decode strict on/off, "
+              "PEM.decode, PKCS8.unwrap, PBES1/PBES2.decrypt, unpad x3, english_to_key, RSA/DSA/ECC.import_key with and without passphrase) are offered every byte string of length "
+              "<= 2, ~20000 random strings each, and structure-aware mutations of 133 valid blobs (every length octet replaced by 80 / 81 00 / 81 7F / 84 FFFFFFFF / FF, value-"
+              "preserving non-minimal and indefinite re-encodings, truncation at every prefix, trailing byte, tag swaps, bit flips, PEM/DEK-Info/base64/OpenSSH text mutations, "
+              "hostile KDF costs offered without passphrase): any exception other than ValueError (plus IndexError/TypeError for RSA.import_key) is a violation keyed by decoder, "
+              "class and raising function; acceptance of trailing bytes / indefinite / non-minimal length / truncated content (judged by two independent strict readers on the "
+              "outermost structure) is a violation; without a passphrase the sys.monitoring step count must stay below 20x the calibrated bound for valid inputs of that size and the "
+              "counter aborts the call (a hostile iteration count cannot hang the check)."),
+        note="Trusted: ref/der.py, ref/keyfiles.py, ref/padding.py. The step counter cannot see work inside a single C call (the PBES KDF entry points are wrapped for that reason). Strictness is judged on the outermost structure and direct members. One trivial known finding (PEM of empty data).",
+        ref="DESIGN.md §4 C13"),
     "C14": dict(
         technique="runtime monitor: differential oracle (exact Python integers; primes certified by construction) over hostile operand workloads on the three integer back-ends",
         text=("Every operation of the Integer API is executed on IntegerGMP, IntegerCustom and IntegerNative with operands concentrated on limb "
